@@ -273,7 +273,9 @@ def h4_capacity(prog, ctx):
             lens = [render(r2) for l2, r2, st2, k2 in query.stores(f) if k2 == "=" and r2 is not None and l2.strip().k == "MemberExpr"
                     and l2.strip().j.get("member") == "length" and render(l2.strip().children[0]) == obj]
             sep = "->" if lhs.strip().j.get("arrow") else "."
-            if render(rhs) in lens or render(rhs) == "%s%slength" % (obj, sep):
+            r9 = rhs.strip()
+            pre_inc = r9.k == "UnaryOperator" and r9.j.get("op") == "++" and not r9.j.get("postfix", False) and render(r9.children[0]) == "%s%slength" % (obj, sep)
+            if render(rhs) in lens or render(rhs) == "%s%slength" % (obj, sep) or pre_inc:
                 ctx.ok("H4", inst, st.where, "capacity = number of entries stored (%s)" % render(rhs))
                 continue
             # surplus slots initialised by a loop over [.., capacity)
